@@ -458,6 +458,9 @@ func c12Run(input string) string {
 	if len(parts) != 2 {
 		return "bad-input"
 	}
+	if strings.HasPrefix(parts[0], "rest:") {
+		return c12RestRun(strings.TrimPrefix(parts[0], "rest:"), parts[1]) // the REST provider (c12rest.go)
+	}
 	e := c12Shared
 	var log []recCall
 	rec := &recProvider{Provider: mem.NewProvider(), log: &log}
@@ -532,6 +535,11 @@ func c12Gen(r *Rng, tier string) []string {
 			if len(puts) > 0 {
 				ops = append(ops, ops[puts[r.N(len(puts))]])
 			}
+		}
+		if i%5 == 4 {
+			// the REST provider against an in-process vault server
+			out = append(out, "rest:"+[]string{"-", "d", "b", "db", "f", "bf", "dbf", "df"}[(i/5)%8]+"|"+strings.Join(ops, ";"))
+			continue
 		}
 		out = append(out, modes[i%4]+"|"+strings.Join(ops, ";"))
 	}
